@@ -154,6 +154,11 @@ HARNESSES = {
     "H1c": (_mk(), [[s_connect("db1", "s1", "c"), s_ctx("c")], [s_connect("db2", "s2", "c"), s_ctx("c")]]),
     "H1e": (_mk(), [[s_connect("db1", "s1", "c"), s_ctx("c")], [s_connect("DB1", "S1", "c"), s_ctx("c")]]),
     "H1d": (_mk(), [[s_connect("db1", "s1", "c")], [s_connect("db1", "s1", "c")], [s_connect("db1", "s1", "c")]]),
+    # the same races from a NON-initial state: the database has been connected to before (anything the instance
+    # remembers about "already set up" is in play), the schema is new / both schemas are new
+    "H1f": (_mk(conns=("w",)), [[s_connect("db1", "s9", "c"), s_ctx("c")], [s_connect("db1", "s9", "c"), s_ctx("c")]]),
+    "H1g": (_mk(conns=("w",)), [[s_connect("db1", "s8", "c"), s_ctx("c")], [s_connect("db1", "s9", "c"), s_ctx("c")]]),
+    "H1h": (_mk(conns=("w",)), [[s_connect("db1", "s1", "c"), s_ctx("c")], [s_connect("db2", "s1", "c"), s_ctx("c")]]),
     "H2": (
         _mk(setup=["create table t (x int)"], conns=("w1", "w2", "r")),
         [[s_exec("w1", "insert into t values (1)")], [s_exec("w2", "insert into t values (2)")], [s_exec("r", "select x from t order by x")]],
@@ -197,7 +202,7 @@ HARNESSES = {
         [[s_connect("db9", "s9", "c"), s_ctx("c")], [s_exec("w", "insert into t values (7)"), s_exec("w", "select x from t order by x")]],
     ),
 }
-QUICK = ["H1a", "H1b", "H1c", "H1e", "H2", "H3a", "H3b", "H4", "H6", "H7", "H8"]
+QUICK = ["H1a", "H1b", "H1c", "H1e", "H1f", "H2", "H3a", "H3b", "H4", "H6", "H7", "H8"]
 BOUNDS = {"quick": {h: 1 for h in HARNESSES}, "thorough": {h: 2 for h in HARNESSES}}
 BOUNDS["thorough"].update({"H1a": 3, "H2": 3})
 
@@ -243,6 +248,9 @@ INVARIANTS = {
     "H1b": _inv_h1([("db1", "s1"), ("db1", "s2")]),
     "H1c": _inv_h1([("db1", "s1"), ("db2", "s2")]),
     "H1e": _inv_h1([("db1", "s1"), ("DB1", "S1")]),
+    "H1f": _inv_h1([("db1", "s9"), ("db1", "s9")]),
+    "H1g": _inv_h1([("db1", "s8"), ("db1", "s9")]),
+    "H1h": _inv_h1([("db1", "s1"), ("db2", "s1")]),
     "H4": _inv_h1([("db9", "s9")]),
     "H6": _inv_h6,
     "H2": _inv_h2,
